@@ -362,6 +362,15 @@ fn documents(thorough: bool) -> Vec<String> {
         docs.push(format!("{}deep{}", "<x-foo><b>".repeat(n / 2), "</b></x-foo>".repeat(n / 2)));
     }
     docs.push("&lt;script&gt; &amp; <b>x &lt; y</b> <!-- --> <?pi?> <!DOCTYPE html>".into());
+    // text that begins with line feeds right after a start tag: a parser drops ONE line feed after <pre> (and <textarea>,
+    // <listing>), so the serialized form has to write one more than the text has
+    for el in ["pre", "p", "code", "div", "blockquote"] {
+        for text in ["\ncode", "\n\ncode", "\n\n\ncode", "\r\n\r\ncode", "&#10;&#10;code", "\n", "\n\n"] {
+            docs.push(format!("<{el}>{text}</{el}>"));
+            docs.push(format!("a<{el}><code>{text}</code></{el}>b"));
+            docs.push(format!("<{el}><x-foo>{text}</x-foo>second line</{el}>"));
+        }
+    }
     docs
 }
 
